@@ -525,7 +525,7 @@ def doc_faults(rng, rule_doc, macro_files, rule_rel="rule.yaml", max_per_kind=6,
     # ---- macros
     have_defs = bool(rule_doc.get("macros")) or bool(macro_files)
     if have_defs:
-        UNDEF = rng.choice(["@never_defined", "@rax", "@m1", "@r8d", "@any_", "@x"])
+        UNDEF = rng.choice(["@never_defined", "@rax", "@m1", "@r8d", "@any_", "@x", "@plt_call", "@got_load", "@GLIBC_2", "@PLT0", "@tpoff_x", "@gcc_v"])
         done = set()
         for path, node in nodes:
             if len(path) < 2:
